@@ -79,7 +79,7 @@ type inProcess struct{ h http.Handler }
 
 func (t inProcess) RoundTrip(r *http.Request) (*http.Response, error) {
 	rec := httptest.NewRecorder()
-	t.h.ServeHTTP(rec, r)
+	t.h.ServeHTTP(rec, r.WithContext(context.WithoutCancel(r.Context()))) // the provider has a request context of its own
 	return rec.Result(), nil
 }
 
